@@ -339,6 +339,65 @@ struct shape_checker
             }
         std::printf("CONV %s = ok\n", ds(dims).c_str());
         ++g_lines;
+        storage_scripts();
+    }
+
+    // scripts of storage conversions replayed by the model of C16_StorageDefs.v: slot 0 = t, slot 1 = another owning tensor of the
+    // same dims holding (7k+3) mod 100, slots 2, 3 are created by the script. Printed: the contents of the slots named after `=`.
+    //   O d s = constructor tensor(view)   A d s = owning := view   M d s m = (c)map of   S d s m b e = slice   W d s = map := storage
+    static std::string dump(const tscalar* p, tensor_size_t n)
+    {
+        std::string r = "[";
+        for (tensor_size_t k = 0; k < n; ++k) r += (k ? "," : "") + std::to_string(static_cast<long>(p[k]));
+        return r + "]";
+    }
+    void storage_scripts()
+    {
+        if (t.size() == 0 || t.size() > 200) return;
+        const auto row = t.size() / dims[0];
+        tensor     other(dims);
+        for (tensor_size_t k = 0; k < other.size(); ++k) other(k) = static_cast<tscalar>((k * 7 + 3) % 100);
+        for (tensor_size_t b = 0; b <= dims[0]; ++b)
+            for (tensor_size_t e = b; e <= dims[0]; ++e)
+            {
+                for (int mut = 0; mut < 2; ++mut)
+                {
+                    // x = tensor(map of t); v = (const) slice [b, e) of x; x = v   (the view aliases the destination)
+                    tensor x{tensor_cmap_t<tscalar, R>(t)};
+                    if (mut) x = x.slice(b, e); else x = std::as_const(x).slice(b, e);
+                    std::printf("STO %s | O 2 0;S 3 2 %d %ld %ld;A 2 3 = 0:%s 2:%s\n", ds(dims).c_str(), mut, (long)b, (long)e,
+                                dump(t.data(), t.size()).c_str(), dump(x.data(), x.size()).c_str());
+                    ++g_lines;
+                }
+                // y = other; y = const slice [b, e) of t    (no aliasing: source in another buffer)
+                {
+                    tensor y = other;
+                    y        = std::as_const(t).slice(b, e);
+                    std::printf("STO %s | O 2 1;S 3 0 0 %ld %ld;A 2 3 = 0:%s 1:%s 2:%s\n", ds(dims).c_str(), (long)b, (long)e,
+                                dump(t.data(), t.size()).c_str(), dump(other.data(), other.size()).c_str(), dump(y.data(), y.size()).c_str());
+                    ++g_lines;
+                }
+                // mutable slice [b, e) of a copy of t := the same rows of other (map := owning-backed view of equal size)
+                if (e > b)
+                {
+                    tensor z = t;
+                    z.slice(b, e) = std::as_const(other).slice(b, e);
+                    std::printf("STO %s | O 2 0;S 3 2 1 %ld %ld;S 4 1 0 %ld %ld;W 3 4 = 1:%s 2:%s\n", ds(dims).c_str(), (long)b, (long)e, (long)b, (long)e,
+                                dump(other.data(), other.size()).c_str(), dump(z.data(), z.size()).c_str());
+                    ++g_lines;
+                    // ... and from a disjoint slice of the SAME tensor (rows [b,e) := rows [b2, b2 + e - b) with b2 >= e)
+                    const auto len = e - b;
+                    if (e + len <= dims[0])
+                    {
+                        tensor w = t;
+                        w.slice(b, e) = std::as_const(w).slice(e, e + len);
+                        std::printf("STO %s | O 2 0;S 3 2 1 %ld %ld;S 4 2 0 %ld %ld;W 3 4 = 2:%s\n", ds(dims).c_str(), (long)b, (long)e, (long)e, (long)(e + len),
+                                    dump(w.data(), w.size()).c_str());
+                        ++g_lines;
+                    }
+                }
+                (void)row;
+            }
     }
 };
 
